@@ -189,3 +189,57 @@ def _lemmas(ctx):
 
 
 LEMMAS = [_lemmas]
+
+
+_REPLAY = {}
+
+
+def native_replay(ctx, o):
+    """Bounded native stand-in / replay for the voxel geometry obligations: polygons (triangles, rectangles, isosceles trapezoids and other
+    equal-diagonal quadrilaterals, random convex and star-shaped polygons), every starting vertex and both orientations, compared with an
+    independent shoelace / Bourke evaluation in Python."""
+    if 'AxisymmetricVoxel' not in o.name or not any(k in o.name for k in ('cross_sectional_area', 'cross_section_centroid', 'volume')):
+        return None
+    from replaylib.native import run_native
+    code = """
+import math, random
+from cherab.tools.inversions.voxels import AxisymmetricVoxel
+rnd = random.Random(%d)
+def shoelace(p):
+    a = cx = cy = 0.0
+    n = len(p)
+    for i in range(n):
+        x0, y0 = p[i]; x1, y1 = p[(i + 1) %% n]
+        w = x0 * y1 - x1 * y0
+        a += w; cx += (x0 + x1) * w; cy += (y0 + y1) * w
+    a *= 0.5
+    return abs(a), cx / (6 * a), cy / (6 * a)
+polys = [[(2, -1), (2, 3), (3, 2), (3, 0)], [(1, 0), (4, 0), (3, 1), (2, 1)], [(1, 1), (1, 2), (3, 2), (3, 1)], [(1, 0), (2, 0), (1.5, 1)],
+         [(2, 0), (3, 0.5), (3, 1.5), (2, 2)], [(1.0, 0.0), (2.0, -0.5), (2.0, 1.5), (1.0, 1.0)]]
+for _ in range(%d):
+    n = rnd.randint(3, 8); c = (rnd.uniform(2, 5), rnd.uniform(-2, 2))
+    ang = sorted(rnd.uniform(0, 2 * math.pi) for _ in range(n))
+    if max(b - a for a, b in zip(ang, ang[1:] + [ang[0] + 2 * math.pi])) > 2.8: continue
+    polys.append([(c[0] + rnd.uniform(0.3, 1.2) * math.cos(t), c[1] + rnd.uniform(0.3, 1.2) * math.sin(t)) for t in ang])
+bad = []; cases = 0
+for p in polys:
+    a0, cx0, cy0 = shoelace(p)
+    for rev in (False, True):
+        q = list(reversed(p)) if rev else list(p)
+        for s in range(len(q)):
+            r = q[s:] + q[:s]
+            v = AxisymmetricVoxel(r, primitive_type='csg') if False else AxisymmetricVoxel(r)
+            cases += 1
+            got = (v.cross_sectional_area, v.cross_section_centroid.x, v.cross_section_centroid.y, v.volume)
+            want = (a0, cx0, cy0, 2 * math.pi * cx0 * a0)
+            if not all(abs(g - w) <= 1e-9 * max(1.0, abs(w)) for g, w in zip(got, want)):
+                bad.append({"vertices": [list(x) for x in r], "area_centroid_volume": list(got), "expected": list(want)})
+print(json.dumps({"cases": cases, "bad": bad[:3], "nbad": len(bad)}))
+""" % (ctx.get('seed', 0), 40 if ctx.get('tier') == 'quick' else 400)
+    if 'battery' not in _REPLAY:
+        _REPLAY['battery'] = run_native(ctx, code, timeout=600)
+    out = _REPLAY['battery']
+    exp = 'area = |shoelace|/2, Bourke centroid, volume = 2 pi c_x area, for every starting vertex and orientation'
+    if out and out.get('nbad'):
+        return {'confirmed': True, 'input': out['bad'][0], 'observed': out, 'expected': exp}
+    return {'confirmed': False, 'input': None, 'observed': out, 'expected': exp}
